@@ -193,17 +193,20 @@ def model_get_context(seq, context):
 
 def model_any(seq):
     """-> ('ok', consumed) | ('invalid',)"""
-    depth = 0
+    # (a group is closed by the closing tag with its own number: counting depth alone - as the library did, and this model with
+    #  it - takes open 1 ... close 2 for a balanced value)
+    opened = []
     k = 0
     for cls, num in seq:
         if cls == R.OPEN:
-            depth += 1
+            opened.append(num)
         elif cls == R.CLOSE:
-            if depth == 0:
+            if not opened:
                 return ("ok", k)
-            depth -= 1
+            if opened.pop() != num:
+                return ("invalid",)
         k += 1
-    return ("ok", k) if depth == 0 else ("invalid",)
+    return ("ok", k) if not opened else ("invalid",)
 
 
 ALPHABET = [(R.APP, 2), (R.CTX, 0), (R.CTX, 1), (R.OPEN, 0), (R.OPEN, 1), (R.CLOSE, 0), (R.CLOSE, 1)]
